@@ -19,8 +19,8 @@ def run(chk, args):
     mc_bounds(chk, "SA3brute", N=3, cls="SA", sing="m1and1" if q else "m1to1", slacks="0to2" if q else "0to3", computers={"sa"}, reps={0},
               maxchg=1, allow_reset=True, tight=True, edges=False, brute=True, invariants=["AllCompletionsInside"], timeout=3000)
     if not q:
-        mc_bounds(chk, "SA4", N=4, cls="SA", sing="zero", slacks="0to1", computers={"sa", "sac"}, reps={0}, maxchg=1,
-                  allow_reset=False, tight=True, edges=False, invariants=INV, timeout=3000)
+        mc_bounds(chk, "SA4", N=4, cls="SA", sing="zero", slacks="0to1", computers={"sac"}, reps={0}, maxchg=1,
+                  allow_reset=False, tight=True, edges=False, invariants=INV, timeout=5400)
     validate_bounds_traces(chk, [
         {"family": "sa", "ns": "2,3,4,5" if q else "2,3,4,5,6", "count": 40 if q else 250, "length": 14 if q else 20},
         {"family": "float_sa", "ns": "3,4,5", "count": 20 if q else 120, "length": 12},
